@@ -1,12 +1,15 @@
 ------------------------------- MODULE History -------------------------------
 (***************************************************************************)
 (* One object of the library (a sample table, a data set, a prior) under   *)
-(* a HISTORY of calls.  Calls are of three classes:                        *)
+(* a HISTORY of calls.  Calls are of four classes:                         *)
 (*   Read   returns a value and must leave the object as it is             *)
 (*   Mut    a documented in-place change of the object's content           *)
 (*   Deriv  returns a new object (copy, slice, mask, pickle, file round    *)
 (*          trip, a second construction from the caller's own arrays);     *)
 (*          the history goes on with the new object                        *)
+(*   Draw   returns a value AND advances the random generator the object   *)
+(*          holds (a sampling call on a TheJoker): it is compared like a   *)
+(*          read and belongs to the content like a mutation                *)
 (* THE LAW.  What a read returns is a function of the CONTENT only - of    *)
 (* the construction inputs and of the Mut / Deriv calls made since, in     *)
 (* order - never of the reads made before, nor of how often or in which    *)
@@ -31,11 +34,16 @@ DataDerivs == {"copy", "slice", "mask", "rebuild"}
 PriorReads == {"s00", "s01", "s10", "s11"}
 PriorMuts == {}
 PriorDerivs == {}
+(* ---- sampler (TheJoker over one prior and one generator): marginal likelihoods of data set A / B through the in-memory and  *)
+(*      the cache-file path are reads; rejection / iterative sampling draw from the generator                                   *)
+SamplerReads == {"mA", "mAf", "mB"}
+SamplerDraws == {"rA", "rAm", "rB", "iA"}
 
-ReadsOf(kind) == CASE kind = "samples" -> SamplesReads [] kind = "data" -> DataReads [] kind = "prior" -> PriorReads
-MutsOf(kind) == CASE kind = "samples" -> SamplesMuts [] kind = "data" -> DataMuts [] kind = "prior" -> PriorMuts
-DerivsOf(kind) == CASE kind = "samples" -> SamplesDerivs [] kind = "data" -> DataDerivs [] kind = "prior" -> PriorDerivs
-Kinds == {"samples", "data", "prior"}
+ReadsOf(kind) == CASE kind = "samples" -> SamplesReads [] kind = "data" -> DataReads [] kind = "prior" -> PriorReads [] kind = "sampler" -> SamplerReads
+MutsOf(kind) == CASE kind = "samples" -> SamplesMuts [] kind = "data" -> DataMuts [] kind = "prior" -> PriorMuts [] kind = "sampler" -> {}
+DerivsOf(kind) == CASE kind = "samples" -> SamplesDerivs [] kind = "data" -> DataDerivs [] kind = "prior" -> PriorDerivs [] kind = "sampler" -> {}
+DrawsOf(kind) == IF kind = "sampler" THEN SamplerDraws ELSE {}
+Kinds == {"samples", "data", "prior", "sampler"}
 
 \* the listed property a read belongs to (its clause is reported under that property's family)
 Owner(kind, r) ==
@@ -44,11 +52,14 @@ Owner(kind, r) ==
     [] kind = "samples" -> "C17"
     [] kind = "data" -> "C15"
     [] kind = "prior" -> "C09"
+    [] kind = "sampler" /\ r \in SamplerReads -> "C05"
+    [] kind = "sampler" -> "C10"
 
-ClassOf(kind, op) == IF op \in ReadsOf(kind) THEN "read" ELSE IF op \in MutsOf(kind) THEN "mut" ELSE IF op \in DerivsOf(kind) THEN "deriv" ELSE "unknown"
+ClassOf(kind, op) == IF op \in ReadsOf(kind) THEN "read" ELSE IF op \in MutsOf(kind) THEN "mut" ELSE IF op \in DerivsOf(kind) THEN "deriv"
+                     ELSE IF op \in DrawsOf(kind) THEN "draw" ELSE "unknown"
 
 \* the content after a script: the content-changing calls, in order
-ContentOf(kind, script) == SelectSeq(script, LAMBDA o : o \in MutsOf(kind) \cup DerivsOf(kind))
+ContentOf(kind, script) == SelectSeq(script, LAMBDA o : o \in MutsOf(kind) \cup DerivsOf(kind) \cup DrawsOf(kind))
 \* the ideal object: a read's value is an (uninterpreted) function of the read and the content
 Ideal(kind, r, script) == <<r, ContentOf(kind, script)>>
 =============================================================================
